@@ -105,6 +105,15 @@ CHECKS = {
         design_ref="3 C13",
         technique="CrossHair (z3) exploration of one inductive step of the real code over an engine stub with per-connection transaction state; replay on real DuckDB",
     ),
+    "C17": dict(
+        category="other",
+        text="SMT (z3; cvc5 cross-check in the thorough tier) over the terms the real arrow re-encoding functions compute when called with an "
+        "operator-overloading pyarrow shim: for every microsecond timestamp of 0001..9999 (pre-1970 included, with/without UTC zone) and "
+        "every TIME value the safe casts cannot fail and epoch*1e9+fraction / nanoseconds are exact; metadata strings per rowtype.  "
+        "CrossHair over the real request handlers (token lookup, response assembly vs. the in-process cursor).",
+        design_ref="3 C17",
+        technique="symbolic execution by operator overloading of the real functions into z3 terms (QF_BVFP+LIA), SMT query per property; CrossHair for handlers; replay on real pyarrow",
+    ),
 }
 
 NOT_YET = "not claimed yet: check not built in this round (see DESIGN.md 7 for the order of work)"
